@@ -17,6 +17,7 @@ func checkC13(p *Prog, r *Result, tier string) {
 	r.Explanation = "P1 the in-progress marker is created for the keys of the same map variable, with the same key->marker derivation, as the deferred deletion iterates, and the deletion is a defer of the producer registered before the transaction; P2 on the create path AddWorkload receives the marker (constant true from the deploy loop; nil only under !decrProcessing); " +
 		"P3 in each backend AddWorkload with a marker reaches BatchCreateAndDecr, which issues the record creates and the decrement inside one transaction primitive (etcd: one ETCDTxn whose Then holds puts and the decrement, compared on the marker value; redis: one TxPipelined closure holding Decr and the SetNX's); P4 GetDeployStatus is deployed-count plus marker-count in both backends; PK both counts are read with prefix keys ending in the separator. W2 (from C14): markers are deleted before their log entries are committed."
 	r.NotCovered = "the counts at intermediate steps of a run; redis SETNX results being ignored (reported under C23)"
+	r.Assumptions = []string{"A4 an etcd Txn and a redis TxPipelined (MULTI/EXEC) apply their operations atomically", "A2 interface dispatch bounded by module types (mocks/fakes excluded)", "go/cfg dominance stands for execution order inside doCreateWorkloads"}
 	F := p.Fn("cluster/calcium.(*Calcium).doCreateWorkloads")
 	one := p.Fn("cluster/calcium.(*Calcium).doDeployOneWorkload")
 	onNode := p.Fn("cluster/calcium.(*Calcium).doDeployWorkloadsOnNode")
@@ -377,7 +378,9 @@ func exprStrStmt(n ast.Node) string {
 }
 
 func checkRedisBCD(p *Prog, r *Result, fn *FuncNode, key string) {
-	calls := fn.calls(func(f *types.Func) bool { return fullObjName(f) == "github.com/go-redis/redis/v8.(*Client).TxPipelined" })
+	calls := fn.calls(func(f *types.Func) bool {
+		return fullObjName(f) == "github.com/go-redis/redis/v8.(*Client).TxPipelined"
+	})
 	if len(calls) != 1 {
 		r.bad("P3", key, p.pos(fn.Decl), fmt.Sprintf("%d TxPipelined calls (want exactly 1)", len(calls)))
 		return
